@@ -702,15 +702,17 @@ mutual
 end
 
 /-- int json_object_deep_copy(src, &dst, NULL) with `*dst == NULL`, `src != NULL`: (rc, *dst) -/
-def deepCopy (src : Node) : A (Int × Node) := do
-  if src matches .null then do
+def deepCopy (src : Node) : A (Int × Node) :=
+  match src with
+  | .null => do
     setErrno .EINVAL
-    return (-1, .null)
-  let (ok, dst) ← copyRec src
-  if !ok then do
-    if allocDeepCopyPutsPartial then putNode dst else pure ()
     pure (-1, .null)
-  else pure (0, dst)
+  | _ => do
+    let (ok, dst) ← copyRec src
+    if !ok then do
+      if allocDeepCopyPutsPartial then putNode dst else pure ()
+      pure (-1, .null)
+    else pure (0, dst)
 
 /-! ### json_pointer_set -/
 
